@@ -1106,6 +1106,143 @@ def gen_variant(rng):
     return c
 
 
+FUSE_KEYS = ("s", "h", "state", "second.s", "first.h", "x_y", "hidden.0")
+FUSE_PREFIXES = (None, None, None, ["a.", "b."], ["lm/", "am/"], ["x", "y"], ["second.", "first."], ["first.", "2nd:"])
+FUSE_BETAS = ([0, 1], [1, 4], [1, 2], [1, 1], [1, 1], [3, 2], [2, 1], [-1, 2])
+FUSE_MODULI = (2, 3, 4, 5, 5, 7, 7, 8, 9, 11, 13)
+FUSE_MAX_STATES = 130
+
+
+def _gen_part(rng, V, eos, kind, used, like=None):
+    """one part of a fusion; its modulus is coprime with the moduli in `used`; None when that is not possible"""
+    def coprime(m):
+        return all(math.gcd(m, u) == 1 for u in used)
+    if kind == "lookup":
+        order = rng.choice([1, 2, 2, 2, 3])
+        sos = rng.choice([rng.randrange(V), -1, -1, V, V + 5, -100])
+        g = _lookup_geometry(V, order, sos)
+        p = dict(kind=kind, order=order, sos=sos, double=rng.random() < 0.4, lseed=rng.randrange(10 ** 6),
+                 M=g["M"], a=g["a"], b=g["b"], c=g["c"], init=g["init"])
+    elif kind == "ctx":
+        p = dict(kind=kind, step_key=rng.choice([None, None, "step", "n"]), given=rng.random() < 0.5,
+                 M=V + 1, a=0, b=1, c=1, init=0)
+    else:
+        ms = [m for m in FUSE_MODULI if coprime(m)]
+        if not ms:
+            return None
+        M = rng.choice(ms)
+        p = dict(kind=kind, M=M, a=rng.randint(0 if kind == "rec" and rng.random() < 0.1 else 1, M - 1), b=rng.randint(1, M - 1),
+                 c=rng.randrange(M), given=rng.random() < 0.75)
+        if kind == "rec":
+            p.update(layout=rng.choice(sorted(LAYOUTS)), key=rng.choice(FUSE_KEYS), strict=rng.random() < 0.6)
+            if like is not None and like["kind"] == "rec":
+                p.update(layout=like["layout"], key=like["key"], strict=like["strict"])     # same class, same key names
+    if not coprime(p["M"]):
+        return None
+    p["table"] = gen_table(rng, p["M"], V, eos, 0)
+    return p
+
+
+def gen_fused(rng):
+    """composite language model: the library's Extractable/MixableShallowFusionLanguageModel (also nested, custom
+    prefixes, any dyadic beta incl. the default 0) over two or three parts that differ - or not - in class (the library's
+    n-gram LookupLanguageModel of order 1..3 with sos inside/outside the vocabulary, float32 or .double(); the stateful
+    hash LM of the other streams; the PartLM / CtxLM test doubles), state key names, state layout (batch dimension 0, 1,
+    last, none; one or two tensors; long or one-hot float), statefulness and strictness; each part's initial state is
+    either given in initial_state or left to its update_input.  The logical input is the product machine."""
+    while True:
+        c = gen_search(rng)
+        V = c["V"]
+        if V < 2 or c["N"] == 0:
+            continue
+        eos = None if c["eos"] is None else c["eos"] % V
+        shape = rng.choice(["AB"] * 7 + ["(AB)C", "A(BC)"])
+        n = 2 if shape == "AB" else 3
+        kinds = [rng.choice(["rec"] * 6 + ["lookup"] * 3 + ["ctx", "hash"]) for _ in range(n)]
+        if all(k in ("lookup", "ctx") for k in kinds) and rng.random() < 0.7:
+            kinds[rng.randrange(n)] = "rec"          # mostly at least one part with threaded state
+        same = rng.random() < 0.15
+        if same:
+            kinds[1] = kinds[0]
+        parts, used = [], []
+        # stateless parts first: their moduli are dictated by V
+        for j in sorted(range(n), key=lambda j: kinds[j] not in ("lookup", "ctx")):
+            p = _gen_part(rng, V, eos, kinds[j], used, like=parts[0][1] if same and j == 1 and parts and parts[0][0] == 0 else None)
+            if p is None:
+                break
+            parts.append((j, p))
+            used.append(p["M"])
+        if len(parts) < n:
+            continue
+        parts = [p for _, p in sorted(parts, key=lambda jp: jp[0])]
+        M = 1
+        for p in parts:
+            M *= p["M"]
+        if M > FUSE_MAX_STATES or M < 2:
+            continue
+
+        def node(l, r):
+            return {"f": [l, r], "beta": list(rng.choice(FUSE_BETAS)), "pre": rng.choice(FUSE_PREFIXES),
+                    "cls": "M" if rng.random() < 0.4 else "E", "form": rng.randrange(12)}
+        tree = node(0, 1) if n == 2 else node(node(0, 1), 2) if shape == "(AB)C" else node(0, node(1, 2))
+        has_hash = any(p["kind"] == "hash" for p in parts)
+
+        def fix(nd):
+            if isinstance(nd, int):
+                return
+            if has_hash:
+                nd["cls"] = "E"      # the hash LM of the other streams is extractable only
+            fix(nd["f"][0])
+            fix(nd["f"][1])
+        fix(tree)
+        fuse = {"parts": parts, "tree": tree}
+        leaves = _fuse_leaves(tree)
+        if all(cf == 0 for i, cf, _ in leaves if parts[i]["kind"] not in ("lookup", "ctx")) and \
+                all(parts[i]["M"] <= V + 1 for i, cf, _ in leaves if cf != 0):
+            continue     # the scores would depend on the last token at most: exact ties between permuted paths
+        if all(p["kind"] == "lookup" for p in parts):
+            if c["max_iters"] is None:
+                c["max_iters"] = rng.randint(1, 6)      # no part carries the watchdog
+            if all(_part_float32(p) for p in parts) and (n > 2 or rng.random() < 0.5):
+                parts[rng.randrange(n)]["double"] = True
+        c["M"], c["a"], c["b"], c["c"], c["table"], c["unit"], mods = _fuse_product(V, fuse)
+        if all(_part_float32(p) for p in parts):
+            if max(abs(x) for row in c["table"] for x in row) >= 2 ** 24:
+                continue
+            c["dtype"] = "float32"
+        inits = []
+        for _ in range(1 if c["N"] is None else c["N"]):
+            res = [p["init"] if p["kind"] in ("lookup", "ctx") else rng.randrange(p["M"]) if p["given"] else 0 for p in parts]
+            inits.append(_crt(res, mods))
+        c["inits"] = inits
+        c["via"], c["form"], c["fuse"] = "fused", rng.randrange(12), fuse
+        return c
+
+
+def fused_counts(chk, c):
+    f = c["fuse"]
+
+    def tag(p):
+        return p["kind"] + (str(p["order"]) if p["kind"] == "lookup" else ":" + p["layout"] if p["kind"] == "rec" else "")
+    tree, parts = f["tree"], f["parts"]
+    chk.count("fused:shape=%s" % ("AB" if len(parts) == 2 else "(AB)C" if not isinstance(tree["f"][0], int) else "A(BC)"))
+    lv = _fuse_leaves(tree)
+    chk.count("fused:first=%s" % tag(parts[lv[0][0]]))
+    chk.count("fused:last=%s" % tag(parts[lv[-1][0]]))
+    a, b = parts[lv[0][0]], parts[lv[1][0]]
+    chk.count("fused:parts=" + ("same class, layout and keys" if (a["kind"], a.get("layout"), a.get("key")) == (b["kind"], b.get("layout"), b.get("key"))
+                                else "same class" if a["kind"] == b["kind"] else "different classes"))
+    chk.count("fused:first_part_stateless=%s" % (a["kind"] in ("lookup", "ctx")))
+    chk.count("fused:wrapper=%s" % tree.get("cls"))
+    chk.count("fused:prefixes=%s" % ("default" if not tree.get("pre") else "custom"))
+    chk.count("fused:beta=%s" % Fraction(*tree["beta"]))
+    st = [p for p in parts if p["kind"] in ("rec", "hash")]
+    chk.count("fused:initial_state=%s" % ("all given" if all(p["given"] for p in st) else "none given" if not any(p["given"] for p in st) else "partly given"))
+    for p in parts:
+        if p["kind"] == "rec":
+            chk.count("fused:rec_strict=%s" % p["strict"])
+
+
 def gen_staggered(rng):
     """batch interaction: elements of one batch finish at different steps.  States are split into eos-eager and
     eos-averse ones and the batch starts from both kinds, so one element is frozen (and padded) strictly before
@@ -1357,6 +1494,9 @@ def run_search_cases(chk, cases, meta_budget):
         chk.count("search:dtype=%s" % c.get("dtype", "float64"))
         chk.count("search:via=%s" % c.get("via", "module"))
         situation_counts(chk, c, r)
+        if c.get("via") == "fused":
+            fused_counts(chk, c)
+            chk.count("fused:outcome=" + ("skipped_near_tie" if tied and "exc" not in r else "compared"))
         if r.get("watchdog"):
             chk.count("search:outcome=still_running_at_cap")
         elif "exc" in r:
@@ -1647,6 +1787,7 @@ def run(chk, cases=None):
     rnd += [dict(gen_extreme(chk.rng), stream="extreme-magnitude") for _ in range(3000 if thorough else 160)]
     rnd += [dict(gen_variant(chk.rng), stream="entry-layout-history") for _ in range(3000 if thorough else 200)]
     rnd += [dict(gen_staggered(chk.rng), stream="staggered-batch") for _ in range(2500 if thorough else 150)]
+    rnd += [dict(gen_fused(chk.rng), stream="fused-lm") for _ in range(3000 if thorough else 240)]
     allc = ex + [c for c in corpus if c.get("kind") == "search"] + rnd
     streams = [c.get("stream", "random") for c in allc]
     results = run_search_cases(chk, allc, meta_budget=(3000 if thorough else 150))
